@@ -62,19 +62,6 @@ Fixpoint ideal_run_calls (order : list extender) (fails : call -> bool) (cs : li
 (* pass-through chain: enter ascending, one call, exit in reverse *)
 Definition passthrough_trace (ids : list nat) : list event := map Enter ids ++ [Call] ++ map Exit (rev ids).
 
-(* known-defect domains of the faithful model (decidable) *)
-Definition kf_raise_after (es : list extender) : bool := existsb raises_after es.
-Definition kf_wrapped_fails {A} (w : result A) : bool := negb (is_ok w).
-
-(* how often the faithful model runs the wrapped function: every extender whose wrapper sees an exception AFTER the
-   inner function was entered doubles it *)
-Definition doubles {A} (w : result A) (e : extender) : bool :=
-  match beh e with
-  | RaiseBefore => false
-  | RaiseAfter => true
-  | Pass => negb (is_ok w)
-  end.
-
 (* stable sort: elements of equal priority keep the order of the input *)
 Definition same_prio (p : Z) (e : extender) : bool := Z.eqb (prio e) p.
 Definition stable_wrt (input output : list extender) : Prop :=
